@@ -11,7 +11,7 @@ shrink = G.generic_shrink(replay)
 
 
 def plan(tier, seed):
-    return sweep.plan(tier, seed)
+    return sweep.plan(tier, seed, fuzz_mod=__name__)
 
 
 def run(spec):
